@@ -236,7 +236,7 @@ Proof. exact has_capture_correct. Qed.
 Print Assumptions C12_has_capture_correct.
 
 (* the statement facts of handleMatch's use of the reused record, the comment walk of run() and regexpHasCaptureGroups, read off the source on this run *)
-Theorem C12_comment_path_facts : forallb snd gen_c12_facts = true /\ (3 <= List.length gen_c12_facts)%nat.
+Theorem C12_comment_path_facts : forallb snd gen_c12_facts = true /\ (4 <= List.length gen_c12_facts)%nat.
 Proof. exact (conj c12_facts_hold c12_facts_count). Qed.
 Print Assumptions C12_comment_path_facts.
 
